@@ -12,7 +12,12 @@ use serde_json::{json, Value};
 use std::cell::RefCell;
 
 thread_local! { static LOG: RefCell<Vec<(&'static str, i64)>> = const { RefCell::new(Vec::new()) }; }
-fn log(k: &'static str, id: i64) { LOG.with(|l| l.borrow_mut().push((k, id))) }
+/// when installed (server.rs), fang/handler events also go to this global, ordered event list, next to the session's own events
+pub static SINK: std::sync::Mutex<Option<Vec<Value>>> = std::sync::Mutex::new(None);
+fn log(k: &'static str, id: i64) {
+    LOG.with(|l| l.borrow_mut().push((k, id)));
+    if let Some(sink) = SINK.lock().unwrap().as_mut() { sink.push(json!({"ev": k, "a": id, "b": 0})) }
+}
 thread_local! { static PARAMS: RefCell<Vec<String>> = const { RefCell::new(Vec::new()) }; }
 fn got(ps: &[&String]) { PARAMS.with(|p| *p.borrow_mut() = ps.iter().map(|s| s.to_string()).collect()) }
 
